@@ -10,7 +10,12 @@
    The NumPy model is the REPAIRED behaviour (fixes/C13-numpy-dft-upsample.diff, committed in /repo:
    the window is centred on index du and its samples are taken at x0 + (a - du)/up; the two lines
    of the shipped code that differ are kept as [np_offset_shipped] / [np_kern_phase_shipped] for
-   the record; and fixes/C13-max-shift-parabola.diff: see [np_stage1]).
+   the record; fixes/C13-max-shift-parabola.diff: see [np_stage1]; and
+   fixes/C13-zero-frequency-term.diff: both estimators set the zero-frequency bin of the cross
+   spectrum to 0 before the inverse transform, so `cc` is the correlation MINUS ITS MEAN
+   ([zero_dc]; proof/C13_Proofs_DC.v: every quantity below is unchanged by that constant), the
+   max_shift mask is filled with -inf ([maskedo], None = -inf) and the NumPy parabola returns 0 on
+   a zero denominator ([gparab]) as the torch code already did).
    Definitions only; proofs are in proof/C13_Proofs.v. *)
 From QV.lib Require Import Prelude.
 From Coq Require Import QArith Qround.
@@ -39,11 +44,29 @@ Fixpoint argmax (f : nat -> Q) (n : nat) : nat :=
   | S k => let b := argmax f k in if Qltb (f b) (f k) then k else b
   end.
 
+(* the same on arrays that may hold -inf (None): -inf < every number, -inf is not < -inf *)
+Definition oltb (a b : option Q) : bool :=
+  match a, b with
+  | _, None => false
+  | None, Some _ => true
+  | Some x, Some y => Qltb x y
+  end.
+
+Fixpoint argmaxo (f : nat -> option Q) (n : nat) : nat :=
+  match n with
+  | O => O
+  | S k => let b := argmaxo f k in if oltb (f b) (f k) then k else b
+  end.
+
 (* row-major flattening of an (_ x ncols) array; unravel_index i = (i / ncols, i mod ncols) *)
 Definition flat (ncols : nat) (c : nat -> nat -> Q) (i : nat) : Q := c (i / ncols) (i mod ncols).
 
 Definition argmax2 (nrows ncols : nat) (c : nat -> nat -> Q) : nat * nat :=
   let i := argmax (flat ncols c) (nrows * ncols) in (i / ncols, i mod ncols).
+
+Definition flato (ncols : nat) (c : nat -> nat -> option Q) (i : nat) : option Q := c (i / ncols) (i mod ncols).
+Definition argmax2o (nrows ncols : nat) (c : nat -> nat -> option Q) : nat * nat :=
+  let i := argmaxo (flato ncols c) (nrows * ncols) in (i / ncols, i mod ncols).
 
 (* (x0 + d) mod n on indices, d = -1, +1 *)
 Definition wrapi (n : nat) (z : Z) : nat := Z.to_nat (z mod Z.of_nat n).
@@ -59,7 +82,16 @@ Definition fz (n : nat) (k : nat) : Z :=
 Definition np_freq (n : nat) (k : nat) : Z :=
   ((Z.of_nat k + Z.of_nat n / 2) mod Z.of_nat n - Z.of_nat n / 2)%Z.
 
-(* cc_real[x^2 + y^2 >= max_shift^2] = 0 *)
+(* cc_search[x^2 + y^2 >= max_shift^2] = -inf   (repaired; None = -inf).  Without max_shift the
+   search array is the correlation itself *)
+Definition maskedo (M N : nat) (ms : option Q) (cc : nat -> nat -> Q) (k l : nat) : option Q :=
+  match ms with
+  | None => Some (cc k l)
+  | Some m =>
+    if Qle_bool (m * m) (inject_Z (fz M k * fz M k + fz N l * fz N l)) then None else Some (cc k l)
+  end.
+
+(* as shipped (before fixes/C13-zero-frequency-term.diff): cc_real[x^2 + y^2 >= max_shift^2] = 0 *)
 Definition masked (M N : nat) (ms : option Q) (cc : nat -> nat -> Q) (k l : nat) : Q :=
   match ms with
   | None => cc k l
@@ -79,6 +111,23 @@ Definition tparab (v0 v1 v2 : Q) : Q :=
   let d := (4 * v1 - 2 * v2 - 2 * v0)%Q in
   if Qeq_bool d 0 then 0%Q else ((v2 - v0) / d)%Q.
 
+(* NumPy parabolic_peak as REPAIRED (fixes/C13-zero-frequency-term.diff): a zero denominator (flat
+   3-point neighbourhood) gives 0.0; it is always a finite number *)
+Definition gparab (v0 v1 v2 : Q) : option Q :=
+  match parab v0 v1 v2 with Some d => Some d | None => Some 0%Q end.
+
+(* the parabola of the second refinement: guarded in cross_correlation_shift (g = true), the
+   plain quotient in upsampled_correlation_torch (g = false) *)
+Definition par (g : bool) : Q -> Q -> Q -> option Q := if g then gparab else parab.
+
+(* ---------------------------------------------------------------- zero-frequency bin *)
+(* cc[0, 0] = 0 before ifft2: the correlation array minus its mean (proof/C13_Proofs_DC.v) *)
+Fixpoint msum (f : nat -> Q) (n : nat) : Q :=
+  match n with O => 0%Q | S k => (msum f k + f k)%Q end.
+Definition mean2 (M N : nat) (c : nat -> nat -> Q) : Q :=
+  (msum (fun k => msum (fun l => c k l) N) M / (qN M * qN N))%Q.
+Definition zero_dc (M N : nat) (c : nat -> nat -> Q) (k l : nat) : Q := (c k l - mean2 M N c)%Q.
+
 (* ---------------------------------------------------------------- centring *)
 (* (t + 0.5 n) % n - 0.5 n      (NumPy);   ((t + n / 2) % n) - n / 2      (torch) *)
 Definition centre (n : nat) (t : Q) : Q := (qmod (t + qN n / 2) n - qN n / 2)%Q.
@@ -90,13 +139,14 @@ Definition centre_int (n : nat) (p : nat) : Z := fz n p.
 (* coarse peak (p, q) and the parabolically refined (x0, y0) = ((p + dx) % M, (q + dy) % N) *)
 (* REPAIRED behaviour (fixes/C13-max-shift-parabola.diff): the max_shift mask restricts only the
    search for the coarse peak; the parabola reads the unmasked correlation.  (As shipped the
-   parabola read the masked array: [np_stage1_shipped].) *)
+   parabola read the masked array: [np_stage1_shipped].)  fixes/C13-zero-frequency-term.diff: the
+   mask holds -inf, the parabola is guarded (the result is always Some: C13_numpy_always_finite) *)
 Definition np_stage1 (M N : nat) (ms : option Q) (cc : nat -> nat -> Q)
   : option ((nat * nat) * (Q * Q)) :=
-  let '(p, q) := argmax2 M N (masked M N ms cc) in
+  let '(p, q) := argmax2o M N (maskedo M N ms cc) in
   let c := cc in
-  match parab (c (prv M p) q) (c p q) (c (nxt M p) q),
-        parab (c p (prv N q)) (c p q) (c p (nxt N q)) with
+  match gparab (c (prv M p) q) (c p q) (c (nxt M p) q),
+        gparab (c p (prv N q)) (c p q) (c p (nxt N q)) with
   | Some dx, Some dy => Some ((p, q), (qmod (qN p + dx) M, qmod (qN q + dy) N))
   | _, _ => None
   end.
@@ -133,12 +183,12 @@ Definition np_kern_phase_shipped (n up : nat) (x0 : Q) (a k : nat) : Q :=
 
 (* local argmax (lx, ly) and the second parabola; `icc.shape != (3,3)` (peak on the border of
    the window) falls back to dxf = dyf = 0 *)
-Definition win_refine (W : nat) (loc : nat -> nat -> Q) : option ((nat * nat) * (Q * Q)) :=
+Definition win_refine (g : bool) (W : nat) (loc : nat -> nat -> Q) : option ((nat * nat) * (Q * Q)) :=
   let '(lx, ly) := argmax2 W W loc in
   if ((lx =? 0) || (W <=? lx + 1) || (ly =? 0) || (W <=? ly + 1))%bool
   then Some ((lx, ly), (0%Q, 0%Q))
-  else match parab (loc (lx - 1) ly) (loc lx ly) (loc (lx + 1) ly),
-             parab (loc lx (ly - 1)) (loc lx ly) (loc lx (ly + 1)) with
+  else match par g (loc (lx - 1) ly) (loc lx ly) (loc (lx + 1) ly),
+             par g (loc lx (ly - 1)) (loc lx ly) (loc lx (ly + 1)) with
        | Some dxf, Some dyf => Some ((lx, ly), (dxf, dyf))
        | _, _ => None
        end.
@@ -158,7 +208,7 @@ Definition np_shift (M N : nat) (ms : option Q) (up : nat)
   | None => None
   | Some (_, (x0, y0)) =>
     if (up <=? 1) then Some (centre M x0, centre N y0)
-    else match win_refine (np_win up) (ups x0 y0) with
+    else match win_refine true (np_win up) (ups x0 y0) with
          | None => None
          | Some ((lx, ly), (dxf, dyf)) =>
            Some (centre M (np_offset up x0 lx dxf), centre N (np_offset up y0 ly dyf))
@@ -196,7 +246,7 @@ Definition torch_align (M N up : nat) (cc : nat -> nat -> Q) (ups : Q -> Q -> na
   else
     let xs := t_round up x0 in
     let ys := t_round up y0 in
-    match win_refine (t_win up) (ups (t_center up xs) (t_center up ys)) with
+    match win_refine false (t_win up) (ups (t_center up xs) (t_center up ys)) with
     | None => None
     | Some ((r, c), (dx, dy)) => Some (t_offset up xs r dx, t_offset up ys c dy)
     end.
